@@ -71,7 +71,8 @@ def check_selection(names, via_main=False):
     if not via_main:
         for n, g in batch.items():
             rest = {k: v for k, v in g.items() if k != "prune_states"}
-            if rest != pristine[n] or repr(rest) != repr(pristine[n]):
+            was = {k: v for k, v in pristine[n].items() if k != "prune_states"}
+            if rest != was or repr(rest) != repr(was):
                 findings.append(("C12/caller-game-changed", repr(rest)[:300], repr(pristine[n])[:300],
                                  "selection %r: the caller's game %s was changed by the batch run" % (list(names), n)))
                 break
@@ -122,7 +123,7 @@ def work(shard):
         f, k = check_selection(names, via_main)
         out["dicts"] += 1
         out["solves"] += 2 * len(names)
-        if any(n in ("x_no_prune", "g_1", "m_1", "b2") for n in names) and len(names) >= 2:
+        if any(n in ("x_no_prune", "g_1", "m_1", "b2", "lp", "d_p1") for n in names) and len(names) >= 2:
             out["nontrivial"] += 1
         for x in f:
             out["n_violations"] += 1
@@ -140,7 +141,7 @@ def work(shard):
     return out
 
 
-RULE = ("alphabet of 8 named games (4 solvable incl. the paper's figure 5.5, a 42-state board game and a game with a Player-1 state whose moves are all dead, 2 unsolvable when pruned, 2 malformed: "
+RULE = ("alphabet of 9 named games (5 solvable incl. the paper's figure 5.5, a 42-state board game a game with a Player-1 state whose moves are all dead and a game whose pruned and unpruned runs differ without any dead state; two games carry their own 'prune_states' entry, 2 unsolvable when pruned, 2 malformed: "
         "negative reward / None transition list; the names 'x' and 'x_no_prune' collide on purpose); every ordered selection of 0..k distinct "
         "games is one batch history, run through run_games (and in thorough also through main -f FILE -s and the report); every entry must "
         "equal the solo solve of that game computed in a forked fresh process; non-trivial = a selection of >= 2 games containing a failing one")
